@@ -50,9 +50,9 @@ Definition panic_table : list (string * string) := [
    "type fixed by the caller: parameter key table, or the transaction type checked earlier in the ante chain");
   ("app/ante/settlement_fee_checker.go|newSettlementFeeChecker|assert|_.(sdk.FeeTx)",
    "type fixed by the caller: parameter key table, or the transaction type checked earlier in the ante chain");
-  ("app/ante/settlement_fee_checker.go|newSettlementFeeChecker|call:NewCoins|sdk.NewCoins(sdk.NewCoin(_.Denom, _))",
+  ("app/ante/settlement_fee_checker.go|newSettlementFeeChecker|call:NewCoins|sdk.NewCoins",
    "gas price denominations are validated by the settlement parameter set (C16); requiredFees is a truncated non-negative Dec");
-  ("app/ante/settlement_fee_checker.go|newSettlementFeeChecker|call:NewCoin|sdk.NewCoin(_.Denom, _)",
+  ("app/ante/settlement_fee_checker.go|newSettlementFeeChecker|call:NewCoin|sdk.NewCoin",
    "gas price denominations are validated by the settlement parameter set (C16); requiredFees is a truncated non-negative Dec");
   ("types/nft.go|ParseNftId|index|_[0]",
    "MODELLED parse_nft_id_go: guarded by len(data) != 3 (C06_entry_parser_total)");
@@ -64,69 +64,69 @@ Definition panic_table : list (string * string) := [
    "start-up / genesis / export path, outside block processing (genesis round trip is C17)");
   ("x/oracle/genesis.go|InitGenesis|panic|panic(fmt.Errorf('failed to set params (%s)', _))",
    "start-up / genesis / export path, outside block processing (genesis round trip is C17)");
-  ("x/oracle/keeper/feeder.go|Keeper.GetAggregatePrevotes|call:MustUnmarshal|_. cdc.MustUnmarshal(_.Value(), &_)",
+  ("x/oracle/keeper/feeder.go|Keeper.GetAggregatePrevotes|call:MustUnmarshal|_.cdc.MustUnmarshal",
    "codec round trip of a value this module wrote itself (protobuf codec trusted)");
-  ("x/oracle/keeper/feeder.go|Keeper.GetAggregatePrevote|call:MustUnmarshal|_. cdc.MustUnmarshal(_, &_)",
+  ("x/oracle/keeper/feeder.go|Keeper.GetAggregatePrevote|call:MustUnmarshal|_.cdc.MustUnmarshal",
    "codec round trip of a value this module wrote itself (protobuf codec trusted)");
-  ("x/oracle/keeper/feeder.go|Keeper.GetAggregateVotes|call:MustUnmarshal|_. cdc.MustUnmarshal(_.Value(), &_)",
+  ("x/oracle/keeper/feeder.go|Keeper.GetAggregateVotes|call:MustUnmarshal|_.cdc.MustUnmarshal",
    "codec round trip of a value this module wrote itself (protobuf codec trusted)");
-  ("x/oracle/keeper/feeder.go|Keeper.GetAggregateVote|call:MustUnmarshal|_. cdc.MustUnmarshal(_, &_)",
+  ("x/oracle/keeper/feeder.go|Keeper.GetAggregateVote|call:MustUnmarshal|_.cdc.MustUnmarshal",
    "codec round trip of a value this module wrote itself (protobuf codec trusted)");
-  ("x/oracle/keeper/feeder.go|Keeper.GetFeederDelegations|slice|_. Key()[1:]",
+  ("x/oracle/keeper/feeder.go|Keeper.GetFeederDelegations|slice|_.Key()[1:]",
    "store keys written by this module: 1 prefix byte / two big-endian uint64 (Base/Keys.v)");
   ("x/oracle/keeper/feeder.go|Keeper.GetRewardPool|panic|panic(fmt.Sprintf('%s module account has not been set', types.ModuleName))",
    "the oracle module account is created at start-up (NewKeeper panics otherwise)");
-  ("x/oracle/keeper/feeder.go|Keeper.IterateAggregatePrevotes|call:MustUnmarshal|_. cdc.MustUnmarshal(_.Value(), &_)",
+  ("x/oracle/keeper/feeder.go|Keeper.IterateAggregatePrevotes|call:MustUnmarshal|_.cdc.MustUnmarshal",
    "codec round trip of a value this module wrote itself (protobuf codec trusted)");
-  ("x/oracle/keeper/feeder.go|Keeper.IterateAggregatePrevotes|slice|_. Key()[1:]",
+  ("x/oracle/keeper/feeder.go|Keeper.IterateAggregatePrevotes|slice|_.Key()[1:]",
    "store keys written by this module: 1 prefix byte / two big-endian uint64 (Base/Keys.v)");
-  ("x/oracle/keeper/feeder.go|Keeper.IterateAggregateVotes|call:MustUnmarshal|_. cdc.MustUnmarshal(_.Value(), &_)",
+  ("x/oracle/keeper/feeder.go|Keeper.IterateAggregateVotes|call:MustUnmarshal|_.cdc.MustUnmarshal",
    "codec round trip of a value this module wrote itself (protobuf codec trusted)");
-  ("x/oracle/keeper/feeder.go|Keeper.IterateAggregateVotes|slice|_. Key()[1:]",
+  ("x/oracle/keeper/feeder.go|Keeper.IterateAggregateVotes|slice|_.Key()[1:]",
    "store keys written by this module: 1 prefix byte / two big-endian uint64 (Base/Keys.v)");
-  ("x/oracle/keeper/feeder.go|Keeper.IterateMissCount|slice|_. Key()[1:]",
+  ("x/oracle/keeper/feeder.go|Keeper.IterateMissCount|slice|_.Key()[1:]",
    "store keys written by this module: 1 prefix byte / two big-endian uint64 (Base/Keys.v)");
-  ("x/oracle/keeper/feeder.go|Keeper.SetAggregatePrevote|call:MustMarshal|_. cdc.MustMarshal(&_)",
+  ("x/oracle/keeper/feeder.go|Keeper.SetAggregatePrevote|call:MustMarshal|_.cdc.MustMarshal",
    "codec round trip of a value this module wrote itself (protobuf codec trusted)");
-  ("x/oracle/keeper/feeder.go|Keeper.SetAggregateVote|call:MustMarshal|_. cdc.MustMarshal(&_)",
+  ("x/oracle/keeper/feeder.go|Keeper.SetAggregateVote|call:MustMarshal|_.cdc.MustMarshal",
    "codec round trip of a value this module wrote itself (protobuf codec trusted)");
   ("x/oracle/keeper/feeder.go|Keeper.SlashValidatorsAndResetMissCount|panic|panic(fmt.Errorf('failed to get consensus address from validator: %w', _))",
    "miss-counter keys are written from validator addresses of the claim map; GetConsAddr of a stored validator");
   ("x/oracle/keeper/feeder.go|Keeper.SlashValidatorsAndResetMissCount|panic|panic(fmt.Errorf('failed to parse validator address from store: %w', _))",
    "miss-counter keys are written from validator addresses of the claim map; GetConsAddr of a stored validator");
-  ("x/oracle/keeper/keeper.go|Keeper.GetCurrentRoundInfo|call:MustUnmarshal|_. cdc.MustUnmarshal(_, &_)",
+  ("x/oracle/keeper/keeper.go|Keeper.GetCurrentRoundInfo|call:MustUnmarshal|_.cdc.MustUnmarshal",
    "codec round trip of a value this module wrote itself (protobuf codec trusted)");
-  ("x/oracle/keeper/keeper.go|Keeper.SetCurrentRoundInfo|call:MustMarshal|_. cdc.MustMarshal(_)",
+  ("x/oracle/keeper/keeper.go|Keeper.SetCurrentRoundInfo|call:MustMarshal|_.cdc.MustMarshal",
    "codec round trip of a value this module wrote itself (protobuf codec trusted)");
   ("x/oracle/keeper/keeper.go|Keeper.ownershipOracleData|index|_[_]",
    "sources has len(nfts) elements and i ranges over nfts");
   ("x/oracle/keeper/keeper.go|NewKeeper|panic|panic(fmt.Sprintf('%s module account has not been set', types.ModuleName))",
    "start-up / genesis / export path, outside block processing (genesis round trip is C17)");
-  ("x/oracle/keeper/query.go|Keeper.AggregatePrevotes|call:MustUnmarshal|_. cdc.MustUnmarshal(_, &_)",
+  ("x/oracle/keeper/query.go|Keeper.AggregatePrevotes|call:MustUnmarshal|_.cdc.MustUnmarshal",
    "codec round trip of a value this module wrote itself (protobuf codec trusted)");
-  ("x/oracle/module.go|AppModule.ExportGenesis|call:MustMarshalJSON|_. MustMarshalJSON(_)",
+  ("x/oracle/module.go|AppModule.ExportGenesis|call:MustMarshalJSON|_.MustMarshalJSON",
    "start-up / genesis / export path, outside block processing (genesis round trip is C17)");
-  ("x/oracle/module.go|AppModule.InitGenesis|call:MustUnmarshalJSON|_. MustUnmarshalJSON(_, &_)",
+  ("x/oracle/module.go|AppModule.InitGenesis|call:MustUnmarshalJSON|_.MustUnmarshalJSON",
    "start-up / genesis / export path, outside block processing (genesis round trip is C17)");
-  ("x/oracle/module.go|AppModuleBasic.DefaultGenesis|call:MustMarshalJSON|_. MustMarshalJSON(types.DefaultGenesis())",
+  ("x/oracle/module.go|AppModuleBasic.DefaultGenesis|call:MustMarshalJSON|_.MustMarshalJSON",
    "start-up / genesis / export path, outside block processing (genesis round trip is C17)");
   ("x/oracle/module.go|AppModuleBasic.RegisterGRPCGatewayRoutes|panic|panic(_)",
    "start-up / genesis / export path, outside block processing (genesis round trip is C17)");
-  ("x/oracle/types/messages.go|*MsgFeederDelegationConsent.GetSignBytes|call:MustMarshalJSON|_. MustMarshalJSON(_)",
+  ("x/oracle/types/messages.go|*MsgFeederDelegationConsent.GetSignBytes|call:MustMarshalJSON|_.MustMarshalJSON",
    "amino JSON of a decoded message; legacy sign bytes, not used in block processing");
-  ("x/oracle/types/messages.go|*MsgFeederDelegationConsent.GetSignBytes|call:MustSortJSON|sdk.MustSortJSON(_)",
+  ("x/oracle/types/messages.go|*MsgFeederDelegationConsent.GetSignBytes|call:MustSortJSON|sdk.MustSortJSON",
    "amino JSON of a decoded message; legacy sign bytes, not used in block processing");
   ("x/oracle/types/messages.go|*MsgFeederDelegationConsent.GetSigners|panic|panic(_)",
    "the signer address was checked by ValidateBasic, which the ante handler runs before GetSigners is used");
-  ("x/oracle/types/messages.go|*MsgPrevote.GetSignBytes|call:MustMarshalJSON|_. MustMarshalJSON(_)",
+  ("x/oracle/types/messages.go|*MsgPrevote.GetSignBytes|call:MustMarshalJSON|_.MustMarshalJSON",
    "amino JSON of a decoded message; legacy sign bytes, not used in block processing");
-  ("x/oracle/types/messages.go|*MsgPrevote.GetSignBytes|call:MustSortJSON|sdk.MustSortJSON(_)",
+  ("x/oracle/types/messages.go|*MsgPrevote.GetSignBytes|call:MustSortJSON|sdk.MustSortJSON",
    "amino JSON of a decoded message; legacy sign bytes, not used in block processing");
   ("x/oracle/types/messages.go|*MsgPrevote.GetSigners|panic|panic(_)",
    "the signer address was checked by ValidateBasic, which the ante handler runs before GetSigners is used");
-  ("x/oracle/types/messages.go|*MsgVote.GetSignBytes|call:MustMarshalJSON|_. MustMarshalJSON(_)",
+  ("x/oracle/types/messages.go|*MsgVote.GetSignBytes|call:MustMarshalJSON|_.MustMarshalJSON",
    "amino JSON of a decoded message; legacy sign bytes, not used in block processing");
-  ("x/oracle/types/messages.go|*MsgVote.GetSignBytes|call:MustSortJSON|sdk.MustSortJSON(_)",
+  ("x/oracle/types/messages.go|*MsgVote.GetSignBytes|call:MustSortJSON|sdk.MustSortJSON",
    "amino JSON of a decoded message; legacy sign bytes, not used in block processing");
   ("x/oracle/types/messages.go|*MsgVote.GetSigners|panic|panic(_)",
    "the signer address was checked by ValidateBasic, which the ante handler runs before GetSigners is used");
@@ -164,117 +164,117 @@ Definition panic_table : list (string * string) := [
    "generic type instantiation, not an index expression");
   ("x/settlement/genesis.go|InitGenesis|panic|panic(fmt.Errorf('unable to create utxr during init genesis: %w', _))",
    "start-up / genesis / export path, outside block processing (genesis round trip is C17)");
-  ("x/settlement/keeper/grpc_query.go|SettlementKeeper.Tenants|call:MustUnmarshal|_. cdc.MustUnmarshal(_, &_)",
+  ("x/settlement/keeper/grpc_query.go|SettlementKeeper.Tenants|call:MustUnmarshal|_.cdc.MustUnmarshal",
    "codec round trip of a value this module wrote itself (protobuf codec trusted)");
-  ("x/settlement/keeper/grpc_query.go|SettlementKeeper.UTXRs|call:MustUnmarshal|_. cdc.MustUnmarshal(_, &_)",
+  ("x/settlement/keeper/grpc_query.go|SettlementKeeper.UTXRs|call:MustUnmarshal|_.cdc.MustUnmarshal",
    "codec round trip of a value this module wrote itself (protobuf codec trusted)");
-  ("x/settlement/keeper/grpc_query.go|SettlementKeeper.buildTenantWithTreasury|call:NewCoin|sdk.NewCoin(_.Denom, _.AmountOf(_.Denom))",
+  ("x/settlement/keeper/grpc_query.go|SettlementKeeper.buildTenantWithTreasury|call:NewCoin|sdk.NewCoin",
    "query path; tenant denominations are validated at creation since the repair of F08");
-  ("x/settlement/keeper/msg_server.go|msgServer.DepositToTreasury|call:NewCoins|sdk.NewCoins(_.Amount)",
+  ("x/settlement/keeper/msg_server.go|msgServer.DepositToTreasury|call:NewCoins|sdk.NewCoins",
    "msg.Amount was validated by ValidateBasic (valid_coin) since the repair of F08");
-  ("x/settlement/keeper/msg_server.go|msgServer.RemoveTenantAdmin|slice|_. Admins[:_]",
+  ("x/settlement/keeper/msg_server.go|msgServer.RemoveTenantAdmin|slice|_.Admins[:_]",
    "i is the index of the loop over tenant.Admins");
-  ("x/settlement/keeper/msg_server.go|msgServer.RemoveTenantAdmin|slice|_. Admins[_+1:]",
+  ("x/settlement/keeper/msg_server.go|msgServer.RemoveTenantAdmin|slice|_.Admins[_+1:]",
    "i is the index of the loop over tenant.Admins");
   ("x/settlement/keeper/settle.go|SettlementKeeper.Settle|panic|panic(fmt.Errorf('failed to settle: %w', _))",
    "settleUTXRs returns an error only if deleteUTXR does not find the record it has just read from the iterator: unreachable");
-  ("x/settlement/keeper/settle.go|SettlementKeeper.settleUTXRs|call:MustUnmarshal|_. cdc.MustUnmarshal(_.Value(), &_)",
+  ("x/settlement/keeper/settle.go|SettlementKeeper.settleUTXRs|call:MustUnmarshal|_.cdc.MustUnmarshal",
    "codec round trip of a value this module wrote itself (protobuf codec trusted)");
-  ("x/settlement/keeper/settle.go|SettlementKeeper.tryPayout|call:NewCoins|sdk.NewCoins(_)",
+  ("x/settlement/keeper/settle.go|SettlementKeeper.tryPayout|call:NewCoins|sdk.NewCoins",
    "MODELLED payout_panics: valid denomination and 0 <= share < 2^256 for every stored record (C06_payout_cannot_panic, C06_records_stay_safe)");
-  ("x/settlement/keeper/tenant.go|SettlementKeeper.GetAllTenants|call:MustUnmarshal|_. cdc.MustUnmarshal(_.Value(), &_)",
+  ("x/settlement/keeper/tenant.go|SettlementKeeper.GetAllTenants|call:MustUnmarshal|_.cdc.MustUnmarshal",
    "codec round trip of a value this module wrote itself (protobuf codec trusted)");
-  ("x/settlement/keeper/tenant.go|SettlementKeeper.GetTenant|call:MustUnmarshal|_. cdc.MustUnmarshal(_, &_)",
+  ("x/settlement/keeper/tenant.go|SettlementKeeper.GetTenant|call:MustUnmarshal|_.cdc.MustUnmarshal",
    "codec round trip of a value this module wrote itself (protobuf codec trusted)");
-  ("x/settlement/keeper/tenant.go|SettlementKeeper.SetTenant|call:MustMarshal|_. cdc.MustMarshal(_)",
+  ("x/settlement/keeper/tenant.go|SettlementKeeper.SetTenant|call:MustMarshal|_.cdc.MustMarshal",
    "codec round trip of a value this module wrote itself (protobuf codec trusted)");
   ("x/settlement/keeper/tenant.go|SettlementKeeper.deployTokenContract|slice|_[:len(contracts.SBTContract.Bin)]",
    "data was built as Bin ++ ctor two lines above");
   ("x/settlement/keeper/tenant.go|SettlementKeeper.deployTokenContract|slice|_[len(contracts.SBTContract.Bin):]",
    "data was built as Bin ++ ctor two lines above");
-  ("x/settlement/keeper/utxr.go|SettlementKeeper.CreateUTXR|call:MustMarshal|_. cdc.MustMarshal(_)",
+  ("x/settlement/keeper/utxr.go|SettlementKeeper.CreateUTXR|call:MustMarshal|_.cdc.MustMarshal",
    "codec round trip of a value this module wrote itself (protobuf codec trusted)");
-  ("x/settlement/keeper/utxr.go|SettlementKeeper.GetAllUTXRWithTenantAndID|call:MustUnmarshal|_. cdc.MustUnmarshal(_.Value(), &_)",
+  ("x/settlement/keeper/utxr.go|SettlementKeeper.GetAllUTXRWithTenantAndID|call:MustUnmarshal|_.cdc.MustUnmarshal",
    "codec round trip of a value this module wrote itself (protobuf codec trusted)");
   ("x/settlement/keeper/utxr.go|SettlementKeeper.GetAllUTXRWithTenantAndID|slice|_[0:8]",
    "store keys written by this module: 1 prefix byte / two big-endian uint64 (Base/Keys.v)");
   ("x/settlement/keeper/utxr.go|SettlementKeeper.GetAllUTXRWithTenantAndID|slice|_[8:]",
    "store keys written by this module: 1 prefix byte / two big-endian uint64 (Base/Keys.v)");
-  ("x/settlement/keeper/utxr.go|SettlementKeeper.GetAllUniqueNftToVerify|call:MustUnmarshal|_. cdc.MustUnmarshal(_.Value(), &_)",
+  ("x/settlement/keeper/utxr.go|SettlementKeeper.GetAllUniqueNftToVerify|call:MustUnmarshal|_.cdc.MustUnmarshal",
    "codec round trip of a value this module wrote itself (protobuf codec trusted)");
-  ("x/settlement/keeper/utxr.go|SettlementKeeper.GetUTXRByRequestId|call:MustUnmarshal|_. cdc.MustUnmarshal(_, &_)",
+  ("x/settlement/keeper/utxr.go|SettlementKeeper.GetUTXRByRequestId|call:MustUnmarshal|_.cdc.MustUnmarshal",
    "codec round trip of a value this module wrote itself (protobuf codec trusted)");
-  ("x/settlement/keeper/utxr.go|SettlementKeeper.ImportUTXR|call:MustMarshal|_. cdc.MustMarshal(_)",
+  ("x/settlement/keeper/utxr.go|SettlementKeeper.ImportUTXR|call:MustMarshal|_.cdc.MustMarshal",
    "codec round trip of a value this module wrote itself (protobuf codec trusted)");
-  ("x/settlement/keeper/utxr.go|SettlementKeeper.SetRecipients|call:MustMarshal|_. cdc.MustMarshal(&_)",
+  ("x/settlement/keeper/utxr.go|SettlementKeeper.SetRecipients|call:MustMarshal|_.cdc.MustMarshal",
    "codec round trip of a value this module wrote itself (protobuf codec trusted)");
-  ("x/settlement/keeper/utxr.go|SettlementKeeper.SetRecipients|call:MustUnmarshal|_. cdc.MustUnmarshal(_.Value(), &_)",
+  ("x/settlement/keeper/utxr.go|SettlementKeeper.SetRecipients|call:MustUnmarshal|_.cdc.MustUnmarshal",
    "codec round trip of a value this module wrote itself (protobuf codec trusted)");
   ("x/settlement/keeper/utxr.go|SettlementKeeper.SetRecipients|slice|_[0:8]",
    "store keys written by this module: 1 prefix byte / two big-endian uint64 (Base/Keys.v)");
   ("x/settlement/keeper/utxr.go|SettlementKeeper.SetRecipients|slice|_[8:]",
    "store keys written by this module: 1 prefix byte / two big-endian uint64 (Base/Keys.v)");
-  ("x/settlement/keeper/utxr.go|SettlementKeeper.deleteUTXR|call:MustUnmarshal|_. cdc.MustUnmarshal(_, &_)",
+  ("x/settlement/keeper/utxr.go|SettlementKeeper.deleteUTXR|call:MustUnmarshal|_.cdc.MustUnmarshal",
    "codec round trip of a value this module wrote itself (protobuf codec trusted)");
-  ("x/settlement/module.go|AppModule.ExportGenesis|call:MustMarshalJSON|_. MustMarshalJSON(_)",
+  ("x/settlement/module.go|AppModule.ExportGenesis|call:MustMarshalJSON|_.MustMarshalJSON",
    "start-up / genesis / export path, outside block processing (genesis round trip is C17)");
-  ("x/settlement/module.go|AppModule.InitGenesis|call:MustUnmarshalJSON|_. MustUnmarshalJSON(_, &_)",
+  ("x/settlement/module.go|AppModule.InitGenesis|call:MustUnmarshalJSON|_.MustUnmarshalJSON",
    "start-up / genesis / export path, outside block processing (genesis round trip is C17)");
-  ("x/settlement/module.go|AppModuleBasic.DefaultGenesis|call:MustMarshalJSON|_. MustMarshalJSON(types.DefaultGenesis())",
+  ("x/settlement/module.go|AppModuleBasic.DefaultGenesis|call:MustMarshalJSON|_.MustMarshalJSON",
    "start-up / genesis / export path, outside block processing (genesis round trip is C17)");
   ("x/settlement/types/genesis.go|GenesisState.Validate|index|_[_]",
    "start-up / genesis / export path, outside block processing (genesis round trip is C17)");
-  ("x/settlement/types/msg.go|*MsgAddTenantAdmin.GetSignBytes|call:MustMarshalJSON|_. MustMarshalJSON(_)",
+  ("x/settlement/types/msg.go|*MsgAddTenantAdmin.GetSignBytes|call:MustMarshalJSON|_.MustMarshalJSON",
    "amino JSON of a decoded message; legacy sign bytes, not used in block processing");
-  ("x/settlement/types/msg.go|*MsgAddTenantAdmin.GetSignBytes|call:MustSortJSON|sdk.MustSortJSON(_)",
+  ("x/settlement/types/msg.go|*MsgAddTenantAdmin.GetSignBytes|call:MustSortJSON|sdk.MustSortJSON",
    "amino JSON of a decoded message; legacy sign bytes, not used in block processing");
   ("x/settlement/types/msg.go|*MsgAddTenantAdmin.GetSigners|panic|panic(_)",
    "the signer address was checked by ValidateBasic, which the ante handler runs before GetSigners is used");
-  ("x/settlement/types/msg.go|*MsgCancel.GetSignBytes|call:MustMarshalJSON|_. MustMarshalJSON(_)",
+  ("x/settlement/types/msg.go|*MsgCancel.GetSignBytes|call:MustMarshalJSON|_.MustMarshalJSON",
    "amino JSON of a decoded message; legacy sign bytes, not used in block processing");
-  ("x/settlement/types/msg.go|*MsgCancel.GetSignBytes|call:MustSortJSON|sdk.MustSortJSON(_)",
+  ("x/settlement/types/msg.go|*MsgCancel.GetSignBytes|call:MustSortJSON|sdk.MustSortJSON",
    "amino JSON of a decoded message; legacy sign bytes, not used in block processing");
   ("x/settlement/types/msg.go|*MsgCancel.GetSigners|panic|panic(_)",
    "the signer address was checked by ValidateBasic, which the ante handler runs before GetSigners is used");
-  ("x/settlement/types/msg.go|*MsgCreateTenant.GetSignBytes|call:MustMarshalJSON|_. MustMarshalJSON(_)",
+  ("x/settlement/types/msg.go|*MsgCreateTenant.GetSignBytes|call:MustMarshalJSON|_.MustMarshalJSON",
    "amino JSON of a decoded message; legacy sign bytes, not used in block processing");
-  ("x/settlement/types/msg.go|*MsgCreateTenant.GetSignBytes|call:MustSortJSON|sdk.MustSortJSON(_)",
+  ("x/settlement/types/msg.go|*MsgCreateTenant.GetSignBytes|call:MustSortJSON|sdk.MustSortJSON",
    "amino JSON of a decoded message; legacy sign bytes, not used in block processing");
   ("x/settlement/types/msg.go|*MsgCreateTenant.GetSigners|panic|panic(_)",
    "the signer address was checked by ValidateBasic, which the ante handler runs before GetSigners is used");
-  ("x/settlement/types/msg.go|*MsgCreateTenantWithMintableContract.GetSignBytes|call:MustMarshalJSON|_. MustMarshalJSON(_)",
+  ("x/settlement/types/msg.go|*MsgCreateTenantWithMintableContract.GetSignBytes|call:MustMarshalJSON|_.MustMarshalJSON",
    "amino JSON of a decoded message; legacy sign bytes, not used in block processing");
-  ("x/settlement/types/msg.go|*MsgCreateTenantWithMintableContract.GetSignBytes|call:MustSortJSON|sdk.MustSortJSON(_)",
+  ("x/settlement/types/msg.go|*MsgCreateTenantWithMintableContract.GetSignBytes|call:MustSortJSON|sdk.MustSortJSON",
    "amino JSON of a decoded message; legacy sign bytes, not used in block processing");
   ("x/settlement/types/msg.go|*MsgCreateTenantWithMintableContract.GetSigners|panic|panic(_)",
    "the signer address was checked by ValidateBasic, which the ante handler runs before GetSigners is used");
-  ("x/settlement/types/msg.go|*MsgDepositToTreasury.GetSignBytes|call:MustMarshalJSON|_. MustMarshalJSON(_)",
+  ("x/settlement/types/msg.go|*MsgDepositToTreasury.GetSignBytes|call:MustMarshalJSON|_.MustMarshalJSON",
    "amino JSON of a decoded message; legacy sign bytes, not used in block processing");
-  ("x/settlement/types/msg.go|*MsgDepositToTreasury.GetSignBytes|call:MustSortJSON|sdk.MustSortJSON(_)",
+  ("x/settlement/types/msg.go|*MsgDepositToTreasury.GetSignBytes|call:MustSortJSON|sdk.MustSortJSON",
    "amino JSON of a decoded message; legacy sign bytes, not used in block processing");
   ("x/settlement/types/msg.go|*MsgDepositToTreasury.GetSigners|panic|panic(_)",
    "the signer address was checked by ValidateBasic, which the ante handler runs before GetSigners is used");
-  ("x/settlement/types/msg.go|*MsgRecord.GetSignBytes|call:MustMarshalJSON|_. MustMarshalJSON(_)",
+  ("x/settlement/types/msg.go|*MsgRecord.GetSignBytes|call:MustMarshalJSON|_.MustMarshalJSON",
    "amino JSON of a decoded message; legacy sign bytes, not used in block processing");
-  ("x/settlement/types/msg.go|*MsgRecord.GetSignBytes|call:MustSortJSON|sdk.MustSortJSON(_)",
+  ("x/settlement/types/msg.go|*MsgRecord.GetSignBytes|call:MustSortJSON|sdk.MustSortJSON",
    "amino JSON of a decoded message; legacy sign bytes, not used in block processing");
   ("x/settlement/types/msg.go|*MsgRecord.GetSigners|panic|panic(_)",
    "the signer address was checked by ValidateBasic, which the ante handler runs before GetSigners is used");
-  ("x/settlement/types/msg.go|*MsgRecord.ValidateBasic|slice|_. TokenIdHex[2:]",
+  ("x/settlement/types/msg.go|*MsgRecord.ValidateBasic|slice|_.TokenIdHex[2:]",
    "guarded by HasPrefix(TokenIdHex, 0x) on the previous line");
-  ("x/settlement/types/msg.go|*MsgRemoveTenantAdmin.GetSignBytes|call:MustMarshalJSON|_. MustMarshalJSON(_)",
+  ("x/settlement/types/msg.go|*MsgRemoveTenantAdmin.GetSignBytes|call:MustMarshalJSON|_.MustMarshalJSON",
    "amino JSON of a decoded message; legacy sign bytes, not used in block processing");
-  ("x/settlement/types/msg.go|*MsgRemoveTenantAdmin.GetSignBytes|call:MustSortJSON|sdk.MustSortJSON(_)",
+  ("x/settlement/types/msg.go|*MsgRemoveTenantAdmin.GetSignBytes|call:MustSortJSON|sdk.MustSortJSON",
    "amino JSON of a decoded message; legacy sign bytes, not used in block processing");
   ("x/settlement/types/msg.go|*MsgRemoveTenantAdmin.GetSigners|panic|panic(_)",
    "the signer address was checked by ValidateBasic, which the ante handler runs before GetSigners is used");
-  ("x/settlement/types/msg.go|*MsgUpdateTenantPayoutPeriod.GetSignBytes|call:MustMarshalJSON|_. MustMarshalJSON(_)",
+  ("x/settlement/types/msg.go|*MsgUpdateTenantPayoutPeriod.GetSignBytes|call:MustMarshalJSON|_.MustMarshalJSON",
    "amino JSON of a decoded message; legacy sign bytes, not used in block processing");
-  ("x/settlement/types/msg.go|*MsgUpdateTenantPayoutPeriod.GetSignBytes|call:MustSortJSON|sdk.MustSortJSON(_)",
+  ("x/settlement/types/msg.go|*MsgUpdateTenantPayoutPeriod.GetSignBytes|call:MustSortJSON|sdk.MustSortJSON",
    "amino JSON of a decoded message; legacy sign bytes, not used in block processing");
   ("x/settlement/types/msg.go|*MsgUpdateTenantPayoutPeriod.GetSigners|panic|panic(_)",
    "the signer address was checked by ValidateBasic, which the ante handler runs before GetSigners is used");
-  ("x/settlement/types/params.go|DefaultParams|call:NewDecCoins|sdk.NewDecCoins(sdk.DecCoin{}, sdk.DecCoin{})",
+  ("x/settlement/types/params.go|DefaultParams|call:NewDecCoins|sdk.NewDecCoins",
    "start-up / genesis / export path, outside block processing (genesis round trip is C17)");
   ("x/settlement/types/params.go|validateGasPrices|assert|_.(sdk.DecCoins)",
    "type fixed by the caller: parameter key table, or the transaction type checked earlier in the ante chain");
